@@ -10,13 +10,74 @@ From VProof Require Import Outlier_proofs.
 Import ListNotations.
 Open Scope Z_scope.
 
+(* ===== the property's sentences for every history =====
+   st = the state after any op list, op = any next op, st' = step K st op.
+   [fired K st op = Some (c, sm)] says that op runs the interval algorithm (the timer fires,
+   or a config update whose interval has already elapsed): it runs with config c on sm =
+   st with the clock at the deadline (resp. after the config's endpoint update), and
+   [swapped sm] are the endpoints after the bucket swap.  now st' is the interval's time. *)
+
+(* ejections only happen at intervals: any other op leaves every ejection time as it was *)
+Theorem C40_no_ejection_outside_interval : forall K ops op id e' x,
+  let st := final K init ops in let st' := step K st op in
+  fired K st op = None -> find id (eps st') = Some e' -> ej e' = Some x ->
+  exists e, find id (eps st) = Some e /\ ej e = Some x.
+Proof. exact hist_no_ejection_outside_interval. Qed.
+Print Assumptions C40_no_ejection_outside_interval.
+
+(* "at each interval, an endpoint is ejected only if it has at least the configured request
+   volume and fails the success-rate or failure-percentage criterion" (on the swapped bucket) *)
+Theorem C40_eject_only_if : forall K ops op c sm id e',
+  let st := final K init ops in let st' := step K st op in
+  fired K st op = Some (c, sm) ->
+  find id (eps st') = Some e' -> ej e' = Some (now st') ->
+  exists e0, find id (swapped sm) = Some e0 /\
+    let L := considered (sr_vol c) (swapped sm) in
+    ((sr_on c = true /\ sr_min c <= len L /\ sr_vol c <= rv e0 /\ sr_fail (sr_stdev c) L e0 = true) \/
+     (fp_on c = true /\ fp_vol c <= rv e0 /\ fp_fail (fp_thr c) e0 = true)).
+Proof. exact hist_eject_only_if. Qed.
+Print Assumptions C40_eject_only_if.
+
+(* "no ejection happens while the currently ejected share of current endpoints is at or
+   above max_ejection_percent": if any endpoint is ejected at an interval, the code's test
+   (doubles) on the counter the interval started with was negative, and that counter is the
+   number of ejected endpoints plus gD (ejections of already ejected endpoints). *)
+Theorem C40_no_ejection_at_or_above_max : forall K ops op c sm id e',
+  let st := final K init ops in let st' := step K st op in
+  fired K st op = Some (c, sm) ->
+  find id (eps st') = Some e' -> ej e' = Some (now st') ->
+  share_ge (numej sm) (len (eps sm)) (maxpct c) = false /\
+  numej sm = count_ej (eps sm) + gD st.
+Proof. exact hist_no_ejection_at_or_above_max. Qed.
+Print Assumptions C40_no_ejection_at_or_above_max.
+
+(* "an ejected endpoint is un-ejected once min(base x multiplier, max(base, max)) has
+   elapsed": an endpoint ejected at t0 is, after the interval at time now st', either
+   re-ejected now, or un-ejected and then t0 + span < now, or still ejected at t0 with the
+   same multiplier and then now <= t0 + span. *)
+Theorem C40_uneject_time : forall K ops op c sm id e t0,
+  let st := final K init ops in let st' := step K st op in
+  fired K st op = Some (c, sm) ->
+  find id (eps sm) = Some e -> ej e = Some t0 ->
+  exists e', find id (eps st') = Some e' /\
+    match ej e' with
+    | None => t0 + Z.min (base c * mult e') (Z.max (base c) (maxej c)) < now st'
+    | Some x => x = now st' \/
+                (x = t0 /\ mult e' = mult e /\
+                 now st' <= t0 + Z.min (base c * mult e) (Z.max (base c) (maxej c)))
+    end.
+Proof. exact hist_uneject_time. Qed.
+Print Assumptions C40_uneject_time.
+
+(* ===== the same, for one pass of the loops (all lists, counters, configs) ===== *)
+
 (* "an endpoint is ejected only if it has at least the configured request volume and fails
    the criterion, and not while the ejected share is at or above max_ejection_percent":
    a pass of either algorithm changes an endpoint only by ejecting it at the interval's time,
    and then the algorithm's test [crit] held for it, the enforcement percentage is 100 and
    the max_ejection_percent test (share_ge, as the code computes it from its counter) was
    negative at a counter value kk reached during the pass. *)
-Theorem C40_eject_only_if : forall crit enf n mx t l k gd k' gd' l',
+Theorem C40_eject_only_if_pass : forall crit enf n mx t l k gd k' gd' l',
   pass crit enf n mx t k gd l = (k', gd', l') ->
   Forall2 (fun p p' =>
     fst p' = fst p /\
@@ -24,13 +85,13 @@ Theorem C40_eject_only_if : forall crit enf n mx t l k gd k' gd' l',
      (snd p' = eject_ep t (snd p) /\ crit (snd p) = true /\ 100 <= enf /\
       exists kk, k <= kk < k' /\ share_ge kk n mx = false))) l l'.
 Proof. exact pass_spec. Qed.
-Print Assumptions C40_eject_only_if.
+Print Assumptions C40_eject_only_if_pass.
 
 (* if a pass ejected anything, the test was negative for the counter the pass started with *)
-Theorem C40_no_ejection_at_or_above_max : forall crit enf n mx t l k gd k' gd' l',
+Theorem C40_no_ejection_at_or_above_max_pass : forall crit enf n mx t l k gd k' gd' l',
   pass crit enf n mx t k gd l = (k', gd', l') -> k' <> k -> share_ge k n mx = false.
 Proof. exact pass_first. Qed.
-Print Assumptions C40_no_ejection_at_or_above_max.
+Print Assumptions C40_no_ejection_at_or_above_max_pass.
 
 (* what the two tests are: request volume reached and ... *)
 Theorem C40_success_rate_criterion : forall c L e, sr_crit c L e = true ->
@@ -53,7 +114,7 @@ Print Assumptions C40_failure_percentage_criterion.
 (* "un-ejected once min(base x multiplier, max(base, max_ejection_time)) has elapsed":
    the last loop of the interval algorithm at time t un-ejects an endpoint ejected at t0
    exactly when t0 + eject_span < t, and never ejects. *)
-Theorem C40_uneject_time : forall c t l u l', sweep c t l = (u, l') ->
+Theorem C40_uneject_time_sweep : forall c t l u l', sweep c t l = (u, l') ->
   Forall2 (fun p p' =>
     fst p' = fst p /\
     match ej (snd p) with
@@ -63,7 +124,7 @@ Theorem C40_uneject_time : forall c t l u l', sweep c t l = (u, l') ->
               mult (snd p') = (if 0 <? mult (snd p) then mult (snd p) - 1 else mult (snd p))
     end) l l'.
 Proof. exact sweep_spec. Qed.
-Print Assumptions C40_uneject_time.
+Print Assumptions C40_uneject_time_sweep.
 
 (* "a no-op config un-ejects everything" (and zeroes the multipliers, stops the timer) *)
 Theorem C40_noop_unejects_all : forall c ids st, noop c = true ->
@@ -133,16 +194,12 @@ Theorem C40_failure_percentage_exact_refuted :
 Proof. exact fp_float_refuted. Qed.
 Print Assumptions C40_failure_percentage_exact_refuted.
 
-(* Partial bridge: clauses 0, 4, 5, 6, 7 (well-formed observation, no-op config, TF while
-   ejected, counter accounting, counter exact without double ejection) of the predicate evaluated on implementation traces hold on
-   every model trace.  Full statement (not proved): the same for holds_b, i.e. also for
-   clauses 1-3 (eject-only-if, share test, un-ejection time), whose content is proved above
-   at the level of pass / sweep; missing is the composition through fire and the
-   "no endpoint carries the firing time as ejection time before the interval" invariant. *)
-Theorem C40_holds_on_every_model_trace_partial : forall c ops, cfg_wf c = true ->
-  exists obs, run c ops = Some obs /\ holds_cov_b c ops obs = true.
-Proof. exact model_trace_holds_partial. Qed.
-Print Assumptions C40_holds_on_every_model_trace_partial.
+(* The executable predicate that is evaluated on implementation traces (all clauses except
+   those of the three open findings 8-10) holds on every trace of the model, for every op list. *)
+Theorem C40_holds_on_every_model_trace : forall c ops, cfg_wf c = true ->
+  exists obs, run c ops = Some obs /\ holds_b c ops obs = true.
+Proof. exact model_trace_holds. Qed.
+Print Assumptions C40_holds_on_every_model_trace.
 
 (* non-vacuity: an ejection, then un-ejection after base*1 = 30 s has elapsed (4th interval) *)
 Example C40_witness :
